@@ -19,7 +19,7 @@ def known_findings():
     if os.path.exists(p):
         for ln in open(p):
             ln = ln.strip()
-            m = re.match(r'^finding:\s*property=(\S+)\s+obligation=(\S+)\s*::\s*(.*)$', ln)
+            m = re.match(r'^finding:\s*property=(\S+)\s+obligation=(.+?)\s+::\s+(.*)$', ln)
             if m: out.append(dict(property=m.group(1), obligation=m.group(2), what=m.group(3)))
     return out
 
@@ -105,8 +105,11 @@ def main(argv=None):
     kf = [k for k in known_findings() if k['property'] == pid]
     new_fail = []
     printed = set()
+    seen_ident = set()
     for (uname, f) in failures:
         ident = f.ident()
+        if ident in seen_ident: continue
+        seen_ident.add(ident)
         hit = [k for k in kf if re.search(k['obligation'], ident)]
         if hit:
             for k in hit:
